@@ -13,6 +13,9 @@ macro_rules! gproof {
         #[kani::stub(alloc::alloc::alloc, crate::vrt::ghost_alloc)]
         #[kani::stub(alloc::alloc::dealloc, crate::vrt::ghost_dealloc)]
         #[kani::stub(alloc::alloc::dealloc_nonnull, crate::vrt::ghost_dealloc_nn)]
+        #[kani::stub(alloc::alloc::realloc, crate::vrt::ghost_realloc)]
+        #[kani::stub(alloc::alloc::realloc_nonnull, crate::vrt::ghost_realloc_nn)]
+        #[kani::stub(alloc::alloc::alloc_zeroed, crate::vrt::ghost_alloc_zeroed)]
         $(#[$m])*
         fn $name() {
             unsafe { crate::vrt::G_TRACK = true; }
@@ -31,6 +34,9 @@ macro_rules! gmay {
         #[kani::stub(alloc::alloc::alloc, crate::vrt::ghost_alloc)]
         #[kani::stub(alloc::alloc::dealloc, crate::vrt::ghost_dealloc)]
         #[kani::stub(alloc::alloc::dealloc_nonnull, crate::vrt::ghost_dealloc_nn)]
+        #[kani::stub(alloc::alloc::realloc, crate::vrt::ghost_realloc)]
+        #[kani::stub(alloc::alloc::realloc_nonnull, crate::vrt::ghost_realloc_nn)]
+        #[kani::stub(alloc::alloc::alloc_zeroed, crate::vrt::ghost_alloc_zeroed)]
         $(#[$m])*
         fn $name() {
             kani::cover!(true, "START");
@@ -50,6 +56,9 @@ macro_rules! gpanic {
         #[kani::stub(alloc::alloc::alloc, crate::vrt::ghost_alloc)]
         #[kani::stub(alloc::alloc::dealloc, crate::vrt::ghost_dealloc)]
         #[kani::stub(alloc::alloc::dealloc_nonnull, crate::vrt::ghost_dealloc_nn)]
+        #[kani::stub(alloc::alloc::realloc, crate::vrt::ghost_realloc)]
+        #[kani::stub(alloc::alloc::realloc_nonnull, crate::vrt::ghost_realloc_nn)]
+        #[kani::stub(alloc::alloc::alloc_zeroed, crate::vrt::ghost_alloc_zeroed)]
         $(#[$m])*
         fn $name() {
             unsafe { crate::vrt::G_TRACK = true; }
@@ -61,7 +70,7 @@ macro_rules! gpanic {
 }
 
 // ------------------------------------------------------------------------------------------
-// Ghost allocator: stubs for alloc::alloc::{alloc, dealloc, dealloc_nonnull}
+// Ghost allocator: stubs for alloc::alloc::{alloc, dealloc, dealloc_nonnull, realloc, realloc_nonnull, alloc_zeroed}
 // ------------------------------------------------------------------------------------------
 pub const GN: usize = 6;
 pub static mut G_ON: bool = false;
@@ -183,6 +192,30 @@ static NATIVE_GHOST: NativeGhost = NativeGhost;
 
 pub unsafe fn ghost_dealloc_nn(ptr: core::ptr::NonNull<u8>, layout: Layout) {
     ghost_dealloc(ptr.as_ptr(), layout)
+}
+
+/// realloc = one more alloc() call (which may be the one chosen to fail: the old block then stays
+/// live and null comes back, as the GlobalAlloc contract says) followed by a copy of the common
+/// prefix and the release of the old block with the layout the caller states for it.
+pub unsafe fn ghost_realloc(ptr: *mut u8, layout: Layout, new_size: usize) -> *mut u8 {
+    let nl = Layout::from_size_align_unchecked(new_size, layout.align());
+    let p = ghost_alloc(nl);
+    if !p.is_null() {
+        let n = if layout.size() < new_size { layout.size() } else { new_size };
+        core::ptr::copy_nonoverlapping(ptr as *const u8, p, n);
+        ghost_dealloc(ptr, layout);
+    }
+    p
+}
+pub unsafe fn ghost_realloc_nn(ptr: core::ptr::NonNull<u8>, layout: Layout, new_size: usize) -> *mut u8 {
+    ghost_realloc(ptr.as_ptr(), layout, new_size)
+}
+pub unsafe fn ghost_alloc_zeroed(layout: Layout) -> *mut u8 {
+    let p = ghost_alloc(layout);
+    if !p.is_null() {
+        core::ptr::write_bytes(p, 0, layout.size());
+    }
+    p
 }
 
 /// proof_for_contract harnesses start from HAVOCKED statics (Kani assumes nothing about global
@@ -837,6 +870,33 @@ pub mod atomic {
                 i += 1;
             }
             ok && seen_sub && (n != 1 || (deallocs == 1 && pdrops == want_payload_drops))
+        }
+    }
+    /// A DEFINITE breach, whatever else the protocol does: a plain (non read-modify-write) write to the
+    /// count before this thread has performed any acquire-class operation on it, followed by the
+    /// destruction of the payload or the release of the block. The plain write ends the release
+    /// sequences headed by the other owners' decrements, so no later acquire in this call can
+    /// synchronise with them (C11 [intro.races] release sequence = the head + RMWs only).
+    pub fn od_plain_write_cuts_release_sequences() -> bool {
+        unsafe {
+            let mut i = 0;
+            let mut acq = false;
+            let mut cut = false;
+            let mut bad = false;
+            while i < TLEN {
+                let e = TRACE[i];
+                if (e.k == K::Load || e.k == K::Cas || e.k == K::Sub || e.k == K::Add || e.k == K::Fence) && acquire_class(e.ord) {
+                    acq = true;
+                }
+                if e.k == K::Store && !acq {
+                    cut = true;
+                }
+                if (e.k == K::PayloadDrop || e.k == K::Dealloc) && cut {
+                    bad = true;
+                }
+                i += 1;
+            }
+            bad
         }
     }
     /// OD-inc: the count is modified by exactly one atomic read-modify-write increment that saw `n`
